@@ -14,3 +14,4 @@ pub mod d2;
 pub mod d3;
 pub mod g4;
 pub mod a2;
+pub mod g3;
